@@ -9,6 +9,7 @@ import json
 
 import lpcase
 import lpgen
+import lpspec
 import pools
 from lib import fq
 
@@ -171,6 +172,14 @@ def run(ctx):
             base_opt = None if "error" in r else r["percent_fed_from_model"]
             base_spec = spec
             base_rows = r.get("rows")
+            base_obj = lpspec.first_objective(r)
+            if base_obj is not None and not lpspec.objective_is_pure(base_obj):
+                ctx.tie_ok = False
+                ctx.violation("C12:first-objective-is-not-the-fed-share",
+                              f"the first solve maximises {base_obj['terms'][:6]}, not the fed share alone: the reported number "
+                              f"carries quantities in absolute units and cannot be scale-free, on {where}",
+                              {"kind": "counterexample", "base": base_spec, "where": where, "objective": base_obj,
+                               "base_optimum": base_opt})
             if base_opt is None:
                 dist["base_infeasible"] += 1
             # a reconstructed real instance must reproduce the optimum the real run reported
@@ -210,9 +219,8 @@ def run(ctx):
             # CBC loses precision on badly scaled or ill-conditioned instances (seen: 3 % on a x1000 scaled real LP, 1e-4 on
             # seaweed ledgers).  Decide on the CODE'S OWN rows (captured from PuLP) re-solved with HiGHS: a defect of the
             # formulation is still there, a solver precision gap is not.
-            import lpspec
-            sb, ob = lpspec.solve_rows(base_rows)
-            sp, op_ = lpspec.solve_rows(r["rows"])
+            sb, ob = lpspec.solve_rows(base_rows, objective=base_obj)
+            sp, op_ = lpspec.solve_rows(r["rows"], objective=lpspec.first_objective(r))
             if sb == 0 and sp == 0:
                 tg = ob * (float(exp0[3:]) if exp0.startswith("eq*") else 1.0)
                 # seaweed ledgers (growth of several hundred percent a month) amplify the float rounding of the rows
